@@ -355,6 +355,31 @@ func DictFixed(m *big.Int, stride int) []*big.Int {
 			}
 		}
 	}
+	// pre-images: values that one, two or three squarings (or an inversion) take to a constant of the source tree (read as a value
+	// and as a Montgomery form) - where a loop compares its running value with a literal, the interesting INPUT is a root of it
+	if m.ProbablyPrime(8) {
+		rInv := new(big.Int).ModInverse(new(big.Int).Mod(two256, m), m)
+		pre := bigs
+		if len(pre) > 48 {
+			pre = pre[:48]
+		}
+		for _, a := range pre {
+			for _, c := range []*big.Int{new(big.Int).Mod(a, m), new(big.Int).Mod(new(big.Int).Mul(a, rInv), m)} {
+				if c.Sign() == 0 {
+					continue
+				}
+				add(new(big.Int).ModInverse(c, m))
+				r := c
+				for depth := 0; depth < 3; depth++ {
+					if r = new(big.Int).ModSqrt(r, m); r == nil {
+						break
+					}
+					add(r)
+					add(new(big.Int).Sub(m, r))
+				}
+			}
+		}
+	}
 	if stride > 1 {
 		var thin []*big.Int
 		for i, v := range out {
@@ -363,6 +388,62 @@ func DictFixed(m *big.Int, stride int) []*big.Int {
 			}
 		}
 		out = thin
+	}
+	return out
+}
+
+// recodingValue returns sum d_i 2^(w i) (+ 2^(w len(d)) with top), made to lie in [0, m) by flipping the sign of the leading
+// digit when that is enough (nil otherwise).
+func recodingValue(w uint, d []int64, top bool, m *big.Int) *big.Int {
+	for try := 0; try < 2; try++ {
+		v := new(big.Int)
+		for i := len(d) - 1; i >= 0; i-- {
+			v.Lsh(v, w).Add(v, big.NewInt(d[i]))
+		}
+		if top {
+			v.Add(v, new(big.Int).Lsh(one, w*uint(len(d))))
+		}
+		if v.Sign() >= 0 && v.Cmp(m) < 0 {
+			return v
+		}
+		d = append([]int64(nil), d...)
+		d[len(d)-1] = -d[len(d)-1]
+	}
+	return nil
+}
+
+// RecodingDense returns scalars in [0, m) whose width-w signed-digit recoding (w = 2..8) has a non-zero odd digit in EVERY
+// window - and one more digit on top (2^(w*ceil(256/w)) + negative rest): the longest and densest recodings there are.
+func RecodingDense(m *big.Int) []*big.Int {
+	var out []*big.Int
+	for w := uint(2); w <= 8; w++ {
+		n := int((256 + w - 1) / w)
+		mx := int64(1)<<(w-1) - 1
+		pats := []func(i int) int64{
+			func(i int) int64 { return -mx }, func(i int) int64 { return mx }, func(i int) int64 { return -1 }, func(i int) int64 { return 1 },
+			func(i int) int64 { return []int64{mx, -mx}[i%2] }, func(i int) int64 { return []int64{-mx, mx}[i%2] }, func(i int) int64 { return []int64{1, -1}[i%2] },
+			func(i int) int64 { // mixed odd digits
+				d := int64(mix64(uint64(i)*7+uint64(w))%uint64(mx+1)) | 1
+				if d > mx {
+					d = mx
+				}
+				if mix64(uint64(i)+99)&1 == 1 {
+					d = -d
+				}
+				return d
+			},
+		}
+		for _, pf := range pats {
+			d := make([]int64, n)
+			for i := range d {
+				d[i] = pf(i)
+			}
+			for _, top := range []bool{true, false} {
+				if v := recodingValue(w, d, top, m); v != nil {
+					out = append(out, v)
+				}
+			}
+		}
 	}
 	return out
 }
@@ -503,13 +584,27 @@ func Uniform256() *rapid.Generator[*big.Int] {
 // DESIGN.md section 3.3; simplest classes first so that shrinking moves towards small values.
 func Int(m *big.Int) *rapid.Generator[*big.Int] {
 	return rapid.Custom(func(t *rapid.T) *big.Int {
-		kind := Pick(t, "intKind", 22)
+		kind := Pick(t, "intKind", 23)
 		var v *big.Int
 		switch kind {
 		case 18, 19, 20: // aimed at constants found in the sources of the tree under test
 			if v = dictInt(t, m); v == nil {
 				v = Uniform256().Draw(t, "r")
 			}
+		case 22: // maximally dense signed-digit recodings (what windowed / NAF scalar recoding sizes its buffers and loops for)
+			w := uint(rapid.IntRange(2, 8).Draw(t, "recW"))
+			digits := make([]int64, 0, 130)
+			for i := uint(0); i*w < 256; i++ {
+				d := int64(2*rapid.IntRange(0, (1<<(w-2))-1).Draw(t, "recD") + 1)
+				if d >= 1<<(w-1) {
+					d = 1<<(w-1) - 1
+				}
+				if rapid.Bool().Draw(t, "recNeg") {
+					d = -d
+				}
+				digits = append(digits, d)
+			}
+			v = recodingValue(w, digits, rapid.Bool().Draw(t, "recTop"), m)
 		case 21: // look-alikes under a FOLD of the words: several words of a special value changed together so that their sum, XOR or
 			// AND/OR stays what it was (what a comparison that folds limbs with + or ^ instead of | cannot tell apart)
 			bases := foldBases(m)
